@@ -341,6 +341,23 @@ func c01Gen(r *rand.Rand, tier string) []spec.Case {
 			}
 		}
 	}
+	// 2a''. lines with more than seven fields: the multiplexing flag is the seventh field whatever follows it
+	{
+		r2 := rand.New(rand.NewSource(int64(104729 + len(out))))
+		for _, v := range [][2]string{{"false", "true"}, {"garbage", "1"}, {"", "T"}, {"0", "true"}, {"true", "false"}, {"true", "x"}, {"T", ""}, {"false", "x|true"}} {
+			for k := 0; k < 3; k++ {
+				p := c01RandCfg(r2)
+				p.Allowed, p.Mux = []string{"netrpc", "grpc"}, k != 2
+				f := c01ValidFor(r2, &p)
+				f.proto, f.mux, f.extra = "grpc", v[0], v[1]
+				if f.cert == "\x00absent" {
+					f.cert = ""
+				}
+				p.Line, p.End = c01Wrapper(f.line(), "lf")
+				add("one-field:extra", p)
+			}
+		}
+	}
 	// 2b. the last three fields interact with each other and with the configuration (protocol x allowed
 	// list x multiplexing x TLS mode): their full cross product for every configuration, all else valid
 	for _, a := range c01AllowedL {
@@ -587,7 +604,7 @@ func init() {
 		ID: "C01", Level: "exploration", Race: true, TestName: "TestC01",
 		Gen: c01Gen, Batch: 1500, Children: 4, PerCase: 300 * time.Millisecond, Base: 90 * time.Second,
 		Judge: c01Judge, Finish: c01Finish,
-		Rule: "cases = (first-stdout-line bytes, end-of-stream behaviour, client config); generated from per-field pools (one field off at a time, random 1-3 fields off, wrappers, field-count truncations, byte mutations) x configs (AllowedProtocols x plugin-set layout x TLS mode x mux); a sample is replayed through a real subprocess. A behaviour class = (set of conditions the reference parser says the line fails | observed outcome | TLS | mux | real); every class counts as non-trivial",
+		Rule: "cases = (first-stdout-line bytes, end-of-stream behaviour, client config); generated from per-field pools (one field off at a time, random 1-3 fields off, wrappers, field-count truncations, lines with 8-9 fields whose trailing field contradicts the seventh, byte mutations) x configs (AllowedProtocols x plugin-set layout x TLS mode x mux); a sample is replayed through a real subprocess. A behaviour class = (set of conditions the reference parser says the line fails | observed outcome | TLS | mux | real); every class counts as non-trivial",
 		Assumptions: []string{
 			"reference parser written from the statement: a cert field of <=50 chars is treated as 'no certificate present' (documented legacy extra data)",
 			"rejecting a line that meets all conditions is allowed (statement says 'only if'); counted as strict_reject",
